@@ -4,6 +4,7 @@
 import Flumine.SimLoop
 import Flumine.Lemmas.OrderLemmas
 import Flumine.Lemmas.Ids
+import Flumine.Props.C02
 import Mathlib.Tactic.SplitIfs
 namespace Flumine.Inv
 open Flumine Flumine.World Flumine.OL Flumine.Ids
@@ -14,9 +15,10 @@ structure Inv (w : World) : Prop where
   nodup : ∀ m ∈ w.markets, m.blotter.Nodup
   live : ∀ m ∈ w.markets, ∀ oid ∈ m.live, oid ∈ m.blotter
   mnodup : (w.markets.map (·.id)).Nodup
+  queue : ∀ p ∈ w.queue, ∀ oid ∈ p.orders, oid ∈ ids w
 
 theorem inv_empty (cfg : Config) (cl : List Client) (ss : List Strategy) : Inv { cfg := cfg, clients := cl, strategies := ss } :=
-  ⟨by simp [ids], by intro m h; simp at h, by intro m h; simp at h, by intro m h; simp at h, by simp⟩
+  ⟨by simp [ids], by intro m h; simp at h, by intro m h; simp at h, by intro m h; simp at h, by simp, by intro p h; simp at h⟩
 
 /-- w' keeps the order ids of w and is well-formed when w is -/
 def Good (w w' : World) : Prop := Keeps w w' ∧ (Inv w → Inv w')
@@ -27,12 +29,13 @@ theorem Good.trans {a b c : World} (h1 : Good a b) (h2 : Good b c) : Good a c :=
 
 /-- the order table changed in place (same ids), markets untouched -/
 theorem Good.inplace {w w' : World} (hids : ids w' = ids w) (hlen : w'.orders.length = w.orders.length)
-    (hm : w'.markets = w.markets) : Good w w' :=
+    (hm : w'.markets = w.markets) (hq : ∀ p ∈ w'.queue, p ∈ w.queue) : Good w w' :=
   ⟨⟨[], by rw [hids]; simp⟩, fun h => ⟨by rw [hids, hlen]; exact h.range, by rw [hm, hids]; exact h.blot,
-    by rw [hm]; exact h.nodup, by rw [hm]; exact h.live, by rw [hm]; exact h.mnodup⟩⟩
+    by rw [hm]; exact h.nodup, by rw [hm]; exact h.live, by rw [hm]; exact h.mnodup,
+    by intro p hp oid ho; rw [hids]; exact h.queue p (hq p hp) oid ho⟩⟩
 
-theorem Good.of_eq {w w' : World} (ho : w'.orders = w.orders) (hm : w'.markets = w.markets) : Good w w' :=
-  Good.inplace (by unfold ids; rw [ho]) (by rw [ho]) hm
+theorem Good.of_eq {w w' : World} (ho : w'.orders = w.orders) (hm : w'.markets = w.markets) (hq : ∀ p ∈ w'.queue, p ∈ w.queue) : Good w w' :=
+  Good.inplace (by unfold ids; rw [ho]) (by rw [ho]) hm hq
 
 /-! ### markets frame lemmas -/
 theorem setCtx_markets (w : World) (c : RunnerCtx) : (w.setCtx c).markets = w.markets := by
@@ -56,8 +59,26 @@ theorem orderUpdateStatus_markets (w : World) (oid : Nat) (s : Status) : (w.orde
   · rw [completeTrade_markets]; rfl
   · rfl
 
+theorem setCtx_queue (w : World) (c : RunnerCtx) : (w.setCtx c).queue = w.queue := by
+  unfold setCtx; split <;> rfl
+theorem completeTrade_queue (w : World) (tid : Nat) : (w.completeTrade tid).queue = w.queue := by
+  unfold completeTrade ctxReset; simp only [setCtx_queue]; rfl
+theorem tradeUpdateStatus_queue (w : World) (tid : Nat) (s : TradeStatus) : (w.tradeUpdateStatus tid s).queue = w.queue := by
+  unfold tradeUpdateStatus
+  simp only
+  split
+  · rw [completeTrade_queue]; rfl
+  · rfl
+theorem orderUpdateStatus_queue (w : World) (oid : Nat) (s : Status) : (w.orderUpdateStatus oid s).queue = w.queue := by
+  unfold orderUpdateStatus
+  simp only
+  split
+  · rw [completeTrade_queue]; rfl
+  · rfl
+theorem sub_of_eq {w w' : World} (h : w'.queue = w.queue) : ∀ p ∈ w'.queue, p ∈ w.queue := by rw [h]; exact fun _ hp => hp
+
 theorem good_modifyOrder (w : World) (a : Nat) (f : Order → Order) (hf : ∀ x, (f x).id = x.id) : Good w (w.modifyOrder a f) := by
-  refine Good.inplace (w := w) (w' := w.modifyOrder a f) ?_ ?_ rfl
+  refine Good.inplace (w := w) (w' := w.modifyOrder a f) ?_ ?_ rfl (fun _ hp => hp)
   · unfold ids modifyOrder
     apply map_ids
     intro x _; split
@@ -66,7 +87,7 @@ theorem good_modifyOrder (w : World) (a : Nat) (f : Order → Order) (hf : ∀ x
   · unfold modifyOrder; simp
 
 theorem good_setOrder (w : World) (o : Order) : Good w (w.setOrder o) := by
-  refine Good.inplace (w := w) (w' := w.setOrder o) ?_ ?_ rfl
+  refine Good.inplace (w := w) (w' := w.setOrder o) ?_ ?_ rfl (fun _ hp => hp)
   · unfold ids setOrder
     apply map_ids
     intro x _; split
@@ -76,7 +97,7 @@ theorem good_setOrder (w : World) (o : Order) : Good w (w.setOrder o) := by
 
 theorem good_orderUpdateStatus (w : World) (oid : Nat) (s : Status) : Good w (w.orderUpdateStatus oid s) := by
   have h := orderUpdateStatus_orders w oid s
-  refine Good.inplace ?_ ?_ (orderUpdateStatus_markets w oid s)
+  refine Good.inplace ?_ ?_ (orderUpdateStatus_markets w oid s) (sub_of_eq (orderUpdateStatus_queue w oid s))
   · unfold ids; rw [h]
     unfold setOrder; apply map_ids; intro x _; split
     · rename_i hh; exact hh.symm
@@ -117,7 +138,7 @@ theorem good_modifyMarket (w : World) (mid : Nat) (f : Market → Market)
     split
     · exact hf m
     · exact ⟨rfl, rfl, fun _ hx => hx⟩
-  refine ⟨h.range, ?_, ?_, ?_, ?_⟩
+  refine ⟨h.range, ?_, ?_, ?_, ?_, h.queue⟩
   · intro m' hm' oid ho
     obtain ⟨m, hm, _, hb, _⟩ := hmem m' hm'
     rw [hb] at ho; exact h.blot m hm oid ho
@@ -138,13 +159,13 @@ theorem good_modifyMarket (w : World) (mid : Nat) (f : Market → Market)
       · rfl
     rw [this]; exact h.mnodup
 
-theorem good_setClient (w : World) (c : Client) : Good w (w.setClient c) := Good.of_eq rfl rfl
-theorem good_emit (w : World) (e : Ev) : Good w (w.emit e) := Good.of_eq rfl rfl
-theorem good_setCtx (w : World) (c : RunnerCtx) : Good w (w.setCtx c) := Good.of_eq (setCtx_orders w c) (setCtx_markets w c)
-theorem good_ctxPlace (w : World) (k : CtxKey) (t : Nat) : Good w (w.ctxPlace k t) := Good.of_eq (ctxPlace_orders w k t) (ctxPlace_markets w k t)
-theorem good_tradeEnter (w : World) (t : Nat) : Good w (w.tradeEnter t) := Good.of_eq (tradeEnter_orders w t) (tradeEnter_markets w t)
-theorem good_tradeExit (w : World) (t : Nat) : Good w (w.tradeExit t) := Good.of_eq (tradeExit_orders w t) (tradeExit_markets w t)
-theorem good_addTransaction (w : World) (c n : Nat) (f : Bool) : Good w (w.addTransaction c n f) := Good.of_eq rfl rfl
+theorem good_setClient (w : World) (c : Client) : Good w (w.setClient c) := Good.of_eq rfl rfl (fun _ hp => hp)
+theorem good_emit (w : World) (e : Ev) : Good w (w.emit e) := Good.of_eq rfl rfl (fun _ hp => hp)
+theorem good_setCtx (w : World) (c : RunnerCtx) : Good w (w.setCtx c) := Good.of_eq (setCtx_orders w c) (setCtx_markets w c) (sub_of_eq (setCtx_queue w c))
+theorem good_ctxPlace (w : World) (k : CtxKey) (t : Nat) : Good w (w.ctxPlace k t) := Good.of_eq (ctxPlace_orders w k t) (ctxPlace_markets w k t) (sub_of_eq (setCtx_queue w _))
+theorem good_tradeEnter (w : World) (t : Nat) : Good w (w.tradeEnter t) := Good.of_eq (tradeEnter_orders w t) (tradeEnter_markets w t) (sub_of_eq (tradeUpdateStatus_queue w t _))
+theorem good_tradeExit (w : World) (t : Nat) : Good w (w.tradeExit t) := Good.of_eq (tradeExit_orders w t) (tradeExit_markets w t) (sub_of_eq (tradeUpdateStatus_queue w t _))
+theorem good_addTransaction (w : World) (c n : Nat) (f : Bool) : Good w (w.addTransaction c n f) := Good.of_eq rfl rfl (fun _ hp => hp)
 theorem good_blotterComplete (w : World) (mid oid : Nat) : Good w (w.blotterComplete mid oid) := by
   unfold blotterComplete
   exact good_modifyMarket w mid _ (fun m => ⟨rfl, rfl, fun x hx => List.mem_of_mem_erase hx⟩)
@@ -183,7 +204,7 @@ theorem good_blotterAdd (w : World) (mid oid : Nat) (ho : oid ∈ ids w) (hn : o
     split
     · rename_i hid; exact ⟨rfl, Or.inr ⟨hid, rfl, rfl⟩⟩
     · exact ⟨rfl, Or.inl ⟨rfl, rfl⟩⟩
-  refine ⟨h.range, ?_, ?_, ?_, ?_⟩
+  refine ⟨h.range, ?_, ?_, ?_, ?_, h.queue⟩
   · intro m' hm' x hx
     obtain ⟨m, hm, _, hc⟩ := hmem m' hm'
     rcases hc with ⟨hb, _⟩ | ⟨_, hb, _⟩
@@ -262,42 +283,88 @@ theorem good_validateControls (w : World) (oid cid : Nat) (k : PackKind) : Good 
         · exact good_setClient w _
         · exact (good_setClient w _).trans (good_orderViolation _ oid _)
 
-theorem good_addPackage (kind : PackKind) (t : Txn) (d bd : Rat) (w : World) (vc : Option Int × List Nat) :
-    Good w (addPackage kind t d bd w vc) := Good.of_eq rfl rfl
+/-- every order a transaction has pending (accepted, not yet packaged) is in the order table -/
+def TOk (w : World) (t : Txn) : Prop :=
+  (∀ x ∈ t.pPlace, x.1 ∈ ids w) ∧ (∀ x ∈ t.pCancel, x.1 ∈ ids w) ∧ (∀ x ∈ t.pUpdate, x.1 ∈ ids w) ∧ (∀ x ∈ t.pReplace, x.1 ∈ ids w)
 
-theorem good_createPackages (w : World) (t : Txn) (pend : List (Nat × Option Int)) (k : PackKind) : Good w (w.createPackages t pend k) := by
+theorem Keeps.mem {w w' : World} (h : Keeps w w') (id : Nat) (ho : id ∈ ids w) : id ∈ ids w' := by
+  obtain ⟨e, he⟩ := h; rw [he]; exact List.mem_append_left _ ho
+
+theorem TOk.keeps {w w' : World} {t : Txn} (h : TOk w t) (k : Keeps w w') : TOk w' t :=
+  ⟨fun x hx => Keeps.mem k _ (h.1 x hx), fun x hx => Keeps.mem k _ (h.2.1 x hx), fun x hx => Keeps.mem k _ (h.2.2.1 x hx),
+   fun x hx => Keeps.mem k _ (h.2.2.2 x hx)⟩
+
+theorem TOk.fresh (w : World) (m c : Nat) : TOk w { market := m, client := c } := by
+  unfold TOk
+  refine ⟨?_, ?_, ?_, ?_⟩ <;> (intro x h; cases h)
+
+theorem good_addPackage (kind : PackKind) (t : Txn) (d bd : Rat) (w : World) (vc : Option Int × List Nat)
+    (hv : ∀ oid ∈ vc.2, oid ∈ ids w) : Good w (addPackage kind t d bd w vc) := by
+  refine ⟨Keeps.of_eq rfl, fun h => ⟨h.range, h.blot, h.nodup, h.live, h.mnodup, ?_⟩⟩
+  intro p hp oid ho
+  unfold addPackage at hp
+  rcases List.mem_append.mp hp with hp | hp
+  · exact h.queue p hp oid ho
+  · rw [List.mem_singleton.mp hp] at ho; exact hv oid ho
+
+theorem good_packs (kind : PackKind) (t : Txn) (d bd : Rat) (l : List (Option Int × List Nat)) (w : World)
+    (hv : ∀ vc ∈ l, ∀ oid ∈ vc.2, oid ∈ ids w) : Good w (l.foldl (addPackage kind t d bd) w) := by
+  induction l generalizing w with
+  | nil => exact Good.refl w
+  | cons vc rest ih =>
+    rw [List.foldl_cons]
+    exact (good_addPackage kind t d bd w vc (hv vc List.mem_cons_self)).trans
+      (ih _ (fun x hx => hv x (List.mem_cons_of_mem _ hx)))
+
+theorem good_createPackages (w : World) (t : Txn) (pend : List (Nat × Option Int)) (k : PackKind)
+    (hp : ∀ x ∈ pend, x.1 ∈ ids w) : Good w (w.createPackages t pend k) := by
   unfold createPackages
-  exact good_foldl _ (fun w vc => good_addPackage k t _ _ w vc) _ w
+  apply good_packs
+  intro vc hvc oid ho
+  exact hp (oid, vc.1) ((C02.packs_sound pend k vc hvc).2.2 oid ho)
 
-theorem good_txnExecute (w : World) (t : Txn) : Good w (w.txnExecute t).1 := by
+theorem good_txnExecute_of (w : World) (t : Txn) (ht : TOk w t) : Good w (w.txnExecute t).1 := by
   unfold txnExecute
   simp only
-  have h : ∀ (w : World) (c : Bool) (p : List (Nat × Option Int)) (k : PackKind), Good w (if c then w else w.createPackages t p k) := by
-    intro w c p k; split
+  have h : ∀ (w : World) (c : Bool) (p : List (Nat × Option Int)) (k : PackKind), (∀ x ∈ p, x.1 ∈ ids w) →
+      Good w (if c then w else w.createPackages t p k) := by
+    intro w c p k hp; split
     · exact Good.refl w
-    · exact good_createPackages w t p k
-  exact (((h w _ _ _).trans (h _ _ _ _)).trans (h _ _ _ _)).trans (h _ _ _ _)
+    · exact good_createPackages w t p k hp
+  have k1 := h w t.pPlace.isEmpty t.pPlace .place ht.1
+  generalize (if t.pPlace.isEmpty = true then w else w.createPackages t t.pPlace .place) = w1 at k1
+  have k2 := h w1 t.pCancel.isEmpty t.pCancel .cancel (fun x hx => Keeps.mem k1.1 _ (ht.2.1 x hx))
+  generalize (if t.pCancel.isEmpty = true then w1 else w1.createPackages t t.pCancel .cancel) = w2 at k2
+  have k3 := h w2 t.pUpdate.isEmpty t.pUpdate .update (fun x hx => Keeps.mem (k1.1.trans k2.1) _ (ht.2.2.1 x hx))
+  generalize (if t.pUpdate.isEmpty = true then w2 else w2.createPackages t t.pUpdate .update) = w3 at k3
+  have k4 := h w3 t.pReplace.isEmpty t.pReplace .replace (fun x hx => Keeps.mem ((k1.1.trans k2.1).trans k3.1) _ (ht.2.2.2 x hx))
+  exact ((k1.trans k2).trans k3).trans k4
 
-theorem good_txnExit (w : World) (t : Txn) : Good w (w.txnExit t) := by
+theorem good_txnExecute (w : World) (t : Txn) (ht : Inv w → TOk w t) : Good w (w.txnExecute t).1 :=
+  ⟨keeps_txnExecute w t, fun hI => (good_txnExecute_of w t (ht hI)).2 hI⟩
+
+theorem tok_txnExecute (w : World) (t : Txn) : TOk (w.txnExecute t).1 (w.txnExecute t).2 := by
+  unfold TOk txnExecute
+  refine ⟨?_, ?_, ?_, ?_⟩ <;> (intro x h; cases h)
+
+theorem good_txnExit (w : World) (t : Txn) (ht : Inv w → TOk w t) : Good w (w.txnExit t) := by
   unfold txnExit; split
-  · exact good_txnExecute w t
+  · exact good_txnExecute w t ht
   · exact Good.refl w
-
 
 theorem market!_congr (w1 w2 : World) (h : w1.markets = w2.markets) (mid : Nat) : w1.market! mid = w2.market! mid := by
   unfold market! market?; rw [h]
 
 /-- a new order appended to the table under the next creation index -/
 theorem good_appendOrder (w w' : World) (o : Order) (hid : o.id = w.orders.length) (ho : w'.orders = w.orders ++ [o])
-    (hm : w'.markets = w.markets) : Good w w' := by
+    (hm : w'.markets = w.markets) (hq : ∀ p ∈ w'.queue, p ∈ w.queue) : Good w w' := by
   have hids : ids w' = ids w ++ [w.orders.length] := by unfold ids; rw [ho]; simp [hid]
-  refine ⟨⟨[w.orders.length], hids⟩, fun h => ⟨?_, ?_, by rw [hm]; exact h.nodup, by rw [hm]; exact h.live, by rw [hm]; exact h.mnodup⟩⟩
+  refine ⟨⟨[w.orders.length], hids⟩, fun h => ⟨?_, ?_, by rw [hm]; exact h.nodup, by rw [hm]; exact h.live, by rw [hm]; exact h.mnodup, ?_⟩⟩
   · rw [hids, ho, List.length_append, List.length_singleton, List.range_succ, h.range]
   · rw [hm]; intro m hmm oid hx
     rw [hids]; exact List.mem_append_left _ (h.blot m hmm oid hx)
-
-theorem Keeps.mem {w w' : World} (h : Keeps w w') (id : Nat) (ho : id ∈ ids w) : id ∈ ids w' := by
-  obtain ⟨e, he⟩ := h; rw [he]; exact List.mem_append_left _ ho
+  · intro p hp oid hx
+    rw [hids]; exact List.mem_append_left _ (h.queue p (hq p hp) oid hx)
 
 theorem good_txnPlace_of_mem (w : World) (t : Txn) (oid : Nat) (v : Option Int) (ex force : Bool) (ho : oid ∈ ids w) : Good w (w.txnPlace t oid v ex force).1 := by
   unfold txnPlace
@@ -400,6 +467,95 @@ theorem good_txnReplace (w : World) (t : Txn) (oid : Nat) (p : Rat) (v : Option 
       | ok w2 => exact k1.trans (good_orderReplace w1 w2 oid p h)
 
 
+/-! ### what a request leaves pending in the transaction -/
+
+theorem txnPlace_txn (w : World) (t : Txn) (oid : Nat) (v : Option Int) (ex force : Bool) :
+    (w.txnPlace t oid v ex force).2.1 = t ∨
+    (w.txnPlace t oid v ex force).2.1 = { t with pPlace := t.pPlace ++ [(oid, v)], pendingOrders := true } := by
+  unfold txnPlace
+  simp only
+  generalize (if (ex && !force) = true then (w.modifyOrder oid fun o => { o with client := some t.client }).validateControls oid t.client .place
+    else (w.modifyOrder oid fun o => { o with client := some t.client }, none)) = vr
+  obtain ⟨w1, r⟩ := vr
+  cases r with
+  | some r => left; rfl
+  | none =>
+    simp only
+    split
+    · left; rfl
+    · split
+      · right; rfl
+      · left; rfl
+
+theorem txnCancel_txn (w : World) (t : Txn) (oid : Nat) (red : Option Rat) (f : Bool) :
+    (w.txnCancel t oid red f).2.1 = t ∨
+    (w.txnCancel t oid red f).2.1 = { t with pCancel := t.pCancel ++ [(oid, none)], pendingOrders := true } := by
+  unfold txnCancel
+  simp only
+  split
+  · left; rfl
+  · generalize (if (!f) = true then w.validateControls oid t.client .cancel else (w, none)) = vr
+    obtain ⟨w1, r⟩ := vr
+    cases r with
+    | some r => left; rfl
+    | none =>
+      simp only
+      cases w1.orderCancel oid red with
+      | error e => left; rfl
+      | ok w2 => right; rfl
+
+theorem txnUpdate_txn (w : World) (t : Txn) (oid : Nat) (p : String) (f : Bool) :
+    (w.txnUpdate t oid p f).2.1 = t ∨
+    (w.txnUpdate t oid p f).2.1 = { t with pUpdate := t.pUpdate ++ [(oid, none)], pendingOrders := true } := by
+  unfold txnUpdate
+  simp only
+  split
+  · left; rfl
+  · generalize (if (!f) = true then w.validateControls oid t.client .update else (w, none)) = vr
+    obtain ⟨w1, r⟩ := vr
+    cases r with
+    | some r => left; rfl
+    | none =>
+      simp only
+      cases w1.orderUpdate oid p with
+      | error e => left; rfl
+      | ok w2 => right; rfl
+
+theorem txnReplace_txn (w : World) (t : Txn) (oid : Nat) (p : Rat) (v : Option Int) (f : Bool) :
+    (w.txnReplace t oid p v f).2.1 = t ∨
+    (w.txnReplace t oid p v f).2.1 = { t with pReplace := t.pReplace ++ [(oid, v)], pendingOrders := true } := by
+  unfold txnReplace
+  simp only
+  split
+  · left; rfl
+  · generalize (if (!f) = true then w.validateControls oid t.client .replace else (w, none)) = vr
+    obtain ⟨w1, r⟩ := vr
+    cases r with
+    | some r => left; rfl
+    | none =>
+      simp only
+      cases w1.orderReplace oid p with
+      | error e => left; rfl
+      | ok w2 => right; rfl
+
+theorem tok_add (w : World) (t t' : Txn) (oid : Nat) (ht : TOk w t) (ho : oid ∈ ids w)
+    (h : t' = t ∨ (∃ v, t' = { t with pPlace := t.pPlace ++ [(oid, v)], pendingOrders := true }) ∨
+      (∃ v, t' = { t with pCancel := t.pCancel ++ [(oid, v)], pendingOrders := true }) ∨
+      (∃ v, t' = { t with pUpdate := t.pUpdate ++ [(oid, v)], pendingOrders := true }) ∨
+      (∃ v, t' = { t with pReplace := t.pReplace ++ [(oid, v)], pendingOrders := true })) : TOk w t' := by
+  unfold TOk at ht ⊢
+  have app : ∀ (l : List (Nat × Option Int)) (v : Option Int), (∀ x ∈ l, x.1 ∈ ids w) → ∀ x ∈ l ++ [(oid, v)], x.1 ∈ ids w := by
+    intro l v hl x hx
+    rcases List.mem_append.mp hx with hx | hx
+    · exact hl x hx
+    · rw [List.mem_singleton.mp hx]; exact ho
+  rcases h with rfl | ⟨v, rfl⟩ | ⟨v, rfl⟩ | ⟨v, rfl⟩ | ⟨v, rfl⟩
+  · exact ht
+  · exact ⟨app _ v ht.1, ht.2.1, ht.2.2.1, ht.2.2.2⟩
+  · exact ⟨ht.1, app _ v ht.2.1, ht.2.2.1, ht.2.2.2⟩
+  · exact ⟨ht.1, ht.2.1, app _ v ht.2.2.1, ht.2.2.2⟩
+  · exact ⟨ht.1, ht.2.1, ht.2.2.1, app _ v ht.2.2.2⟩
+
 /-! ### simulated execution -/
 
 theorem good_logPlaced (w : World) (oid : Nat) (b : Option Nat) : Good w (w.logPlaced oid b) := by
@@ -409,7 +565,7 @@ theorem good_logPlaced (w : World) (oid : Nat) (b : Option Nat) : Good w (w.logP
   | none => exact k1
   | some b => exact (k1.trans (good_modifyOrder _ oid (fun o => { o with betId := some b }) (fun _ => rfl))).trans (good_emit _ _)
 
-theorem good_bumpBetId (w : World) : Good w w.bumpBetId := Good.of_eq rfl rfl
+theorem good_bumpBetId (w : World) : Good w w.bumpBetId := Good.of_eq rfl rfl (fun _ hp => hp)
 
 theorem good_placeStep (p : Package) (w : World) (oid : Nat) : Good w (placeStep p w oid) := by
   unfold placeStep
@@ -455,7 +611,7 @@ theorem good_updateStep (p : Package) (acc : World × Nat) (oid : Nat) : Good ac
 theorem good_createReplacement (w : World) (oid : Nat) (np sz : Rat) (cr : Time) : Good w (w.createReplacement oid np sz cr).1 := by
   unfold createReplacement
   simp only
-  exact good_appendOrder w _ _ rfl rfl rfl
+  exact good_appendOrder w _ _ rfl rfl rfl (fun _ hp => hp)
 
 theorem createReplacement_mem (w : World) (oid : Nat) (np sz : Rat) (cr : Time) :
     (w.createReplacement oid np sz cr).2 ∈ ids (w.createReplacement oid np sz cr).1 := by
@@ -551,7 +707,7 @@ theorem good_executePackage (w : World) (p : Package) : Good w (w.executePackage
 theorem good_checkPendingPackages (w : World) (mid : Nat) : Good w (w.checkPendingPackages mid) := by
   unfold checkPendingPackages
   simp only
-  exact (good_foldl _ (fun w p => good_executePackage w p) _ w).trans (Good.of_eq rfl rfl)
+  exact (good_foldl _ (fun w p => good_executePackage w p) _ w).trans (Good.of_eq rfl rfl (fun p hp => (List.mem_filter.mp hp).1))
 
 
 /-! ### middleware, completion loop, closure -/
@@ -604,7 +760,7 @@ theorem good_mwProcessSimulatedOrders (w : World) (mid : Nat) : Good w (w.mwProc
 theorem good_mwUpdateAnalytics (w : World) (mid : Nat) : Good w (w.mwUpdateAnalytics mid).1 := by
   unfold mwUpdateAnalytics
   simp only
-  exact Good.trans (b := { w with removals := w.removals ++ (detectRemovals ((w.market! mid).book.getD {}).runners (w.market! mid).removals).2 }) (Good.of_eq rfl rfl) (good_modifyMarket _ mid _ (fun m => ⟨rfl, rfl, fun _ hx => hx⟩))
+  exact Good.trans (b := { w with removals := w.removals ++ (detectRemovals ((w.market! mid).book.getD {}).runners (w.market! mid).removals).2 }) (Good.of_eq rfl rfl (fun _ hp => hp)) (good_modifyMarket _ mid _ (fun m => ⟨rfl, rfl, fun _ hx => hx⟩))
 
 theorem good_simulatedMiddleware (w : World) (mid : Nat) : Good w (w.simulatedMiddleware mid) := by
   unfold simulatedMiddleware
@@ -664,82 +820,181 @@ theorem good_processCloseMarket (w : World) (mid : Nat) (book : Book) : Good w (
     simp only
     generalize (((if (!m.closed) = true then w.modifyMarket mid (fun m => { m with closed := true, closedAt := some w.clock }) else w).modifyMarket mid
         (fun m => { m with book := some book })).blotterProcessClosed mid book) = w1 at k
-    have k2 : Good w1 ({ w1 with out := w1.out ++ w1.closeCallbacks mid book ++ w1.clearedEvents mid ++ [Ev.closeEvent mid] } : World) := Good.of_eq rfl rfl
+    have k2 : Good w1 ({ w1 with out := w1.out ++ w1.closeCallbacks mid book ++ w1.clearedEvents mid ++ [Ev.closeEvent mid] } : World) := Good.of_eq rfl rfl (fun _ hp => hp)
     generalize ({ w1 with out := w1.out ++ w1.closeCallbacks mid book ++ w1.clearedEvents mid ++ [Ev.closeEvent mid] } : World) = w2 at k2
     have k3 := good_mm w2 mid (fun m => { m with analytics := [], hasAnalytics := false }) (fun _ => ⟨rfl, rfl, rfl⟩)
     generalize w2.modifyMarket mid (fun m => { m with analytics := [], hasAnalytics := false }) = w3 at k3
-    exact ((k.trans k2).trans k3).trans (Good.of_eq rfl rfl)
+    exact ((k.trans k2).trans k3).trans (Good.of_eq rfl rfl (fun _ hp => hp))
 
 /-! ### scripted strategy actions and the whole update -/
 
-theorem good_doAction (w : World) (mid : Nat) (batch : Option Txn) (a : Action) : Good w (w.doAction mid batch a).1 := by
+/-- the open transaction of a `with market.transaction()` block, if any, only holds existing orders -/
+def BOk (w : World) (b : Option Txn) : Prop := ∀ t, b = some t → TOk w t
+
+theorem target_mem (w : World) (tg : Target) (hI : Inv w) (hm : tg.missing w = false) : tg.resolve w ∈ ids w := by
+  rw [hI.range, List.mem_range]
+  cases tg with
+  | byId oid =>
+    simp only [Target.missing, decide_eq_false_iff_not, Nat.not_le] at hm
+    exact hm
+  | lastOfTrade tid =>
+    simp only [Target.missing, Bool.or_eq_false_iff, decide_eq_false_iff_not, Nat.not_le] at hm
+    exact hm.2
+
+/-- a request through the open transaction -/
+theorem step_direct_some (w : World) (t : Txn) (oid : Nat) (f : World → Txn → World × Txn × ReqResult)
+    (hk : Keeps w (f w t).1) (hg : Inv (f w t).1)
+    (hs : (f w t).2.1 = t ∨ (∃ v, (f w t).2.1 = { t with pPlace := t.pPlace ++ [(oid, v)], pendingOrders := true }) ∨
+      (∃ v, (f w t).2.1 = { t with pCancel := t.pCancel ++ [(oid, v)], pendingOrders := true }) ∨
+      (∃ v, (f w t).2.1 = { t with pUpdate := t.pUpdate ++ [(oid, v)], pendingOrders := true }) ∨
+      (∃ v, (f w t).2.1 = { t with pReplace := t.pReplace ++ [(oid, v)], pendingOrders := true }))
+    (hB : TOk w t) (ho : oid ∈ ids w) :
+    Inv (f w t).1 ∧ BOk (f w t).1 (some (f w t).2.1) := by
+  refine ⟨hg, ?_⟩
+  intro t' ht'
+  have : (f w t).2.1 = t' := Option.some.inj ht'
+  rw [← this]
+  exact tok_add _ t _ oid (hB.keeps hk) (Keeps.mem hk oid ho) hs
+
+/-- a one-request transaction that exits (and so executes) at once -/
+theorem step_direct_none (w : World) (mid client oid : Nat) (f : World → Txn → World × Txn × ReqResult)
+    (hk : Keeps w (f w { market := mid, client := client }).1) (hg : Inv (f w { market := mid, client := client }).1)
+    (hs : (f w { market := mid, client := client }).2.1 = { market := mid, client := client } ∨
+      (∃ v, (f w { market := mid, client := client }).2.1 = { ({ market := mid, client := client } : Txn) with pPlace := [] ++ [(oid, v)], pendingOrders := true }) ∨
+      (∃ v, (f w { market := mid, client := client }).2.1 = { ({ market := mid, client := client } : Txn) with pCancel := [] ++ [(oid, v)], pendingOrders := true }) ∨
+      (∃ v, (f w { market := mid, client := client }).2.1 = { ({ market := mid, client := client } : Txn) with pUpdate := [] ++ [(oid, v)], pendingOrders := true }) ∨
+      (∃ v, (f w { market := mid, client := client }).2.1 = { ({ market := mid, client := client } : Txn) with pReplace := [] ++ [(oid, v)], pendingOrders := true }))
+    (ho : oid ∈ ids w) :
+    Inv ((f w { market := mid, client := client }).1.txnExit (f w { market := mid, client := client }).2.1) ∧
+    BOk ((f w { market := mid, client := client }).1.txnExit (f w { market := mid, client := client }).2.1) none := by
+  have ht1 : TOk (f w { market := mid, client := client }).1 (f w { market := mid, client := client }).2.1 :=
+    tok_add _ { market := mid, client := client } _ oid ((TOk.fresh w mid client).keeps hk) (Keeps.mem hk oid ho) hs
+  exact ⟨(good_txnExit _ _ (fun _ => ht1)).2 hg, fun t h => by cases h⟩
+
+theorem step_doAction (w : World) (mid : Nat) (batch : Option Txn) (a : Action) (hI : Inv w) (hB : BOk w batch) :
+    Inv (w.doAction mid batch a).1 ∧ BOk (w.doAction mid batch a).1 (w.doAction mid batch a).2.1 := by
   unfold doAction
   simp only
   split
-  · exact Good.refl w
-  · cases a with
+  · exact ⟨hI, hB⟩
+  · rename_i hmiss
+    have hin : ∀ tg, a.target? = some tg → tg.resolve w ∈ ids w := by
+      intro tg htg
+      apply target_mem w tg hI
+      rw [htg] at hmiss
+      simpa using hmiss
+    cases a with
     | create o tr =>
+      have hk : ∀ (w' : World), w'.orders = w.orders ++ [{ o with id := w.orders.length, created := w.clock, statusAt := w.clock }] →
+          w'.markets = w.markets → w'.queue = w.queue → Inv w' ∧ BOk w' batch := by
+        intro w' h1 h2 h3
+        have g := good_appendOrder w w' _ rfl h1 h2 (sub_of_eq h3)
+        exact ⟨g.2 hI, fun t ht => (hB t ht).keeps g.1⟩
       cases tr with
-      | none => exact good_appendOrder w _ _ rfl rfl rfl
-      | some t => exact good_appendOrder w _ _ rfl rfl rfl
+      | none => exact hk _ rfl rfl rfl
+      | some t => exact hk _ rfl rfl rfl
     | place tg v force =>
-      rename_i hmiss
-      have hin : Inv w → tg.resolve w ∈ ids w := by
-        intro hI
-        rw [hI.range, List.mem_range]
-        cases tg with
-        | byId oid =>
-          simp only [Action.target?, Option.map, Target.missing, Option.getD, decide_eq_true_eq, Nat.not_le] at hmiss
-          exact hmiss
-        | lastOfTrade tid =>
-          simp only [Action.target?, Option.map, Target.missing, Option.getD, Bool.or_eq_true, decide_eq_true_eq, not_or, Nat.not_le] at hmiss
-          exact hmiss.2
+      have ho := hin tg rfl
       cases batch with
-      | some t => exact good_txnPlace w t _ v true force hin
-      | none => exact (good_txnPlace w _ _ v true force hin).trans (good_txnExit _ _)
+      | some t =>
+        exact step_direct_some w t (tg.resolve w) (fun w t => w.txnPlace t (tg.resolve w) v true force) (keeps_txnPlace w t _ v true force) ((good_txnPlace_of_mem w t _ v true force ho).2 hI)
+          (by
+            rcases txnPlace_txn w t (tg.resolve w) v true force with h | h
+            · exact Or.inl h
+            · exact Or.inr (Or.inl ⟨v, h⟩)) (hB t rfl) ho
+      | none =>
+        exact step_direct_none w mid _ (tg.resolve w) (fun w t => w.txnPlace t (tg.resolve w) v true force) (keeps_txnPlace w _ _ v true force) ((good_txnPlace_of_mem w _ _ v true force ho).2 hI)
+          (by
+            rcases txnPlace_txn w { market := mid, client := _ } (tg.resolve w) v true force with h | h
+            · exact Or.inl h
+            · exact Or.inr (Or.inl ⟨v, h⟩)) ho
     | cancel tg red force =>
+      have ho := hin tg rfl
       cases batch with
-      | some t => exact good_txnCancel w t _ red force
-      | none => exact (good_txnCancel w _ _ red force).trans (good_txnExit _ _)
+      | some t =>
+        exact step_direct_some w t (tg.resolve w) (fun w t => w.txnCancel t (tg.resolve w) red force) (keeps_txnCancel w t _ red force) ((good_txnCancel w t _ red force).2 hI)
+          (by
+            rcases txnCancel_txn w t (tg.resolve w) red force with h | h
+            · exact Or.inl h
+            · exact Or.inr (Or.inr (Or.inl ⟨none, h⟩))) (hB t rfl) ho
+      | none =>
+        exact step_direct_none w mid _ (tg.resolve w) (fun w t => w.txnCancel t (tg.resolve w) red force) (keeps_txnCancel w _ _ red force) ((good_txnCancel w _ _ red force).2 hI)
+          (by
+            rcases txnCancel_txn w { market := mid, client := _ } (tg.resolve w) red force with h | h
+            · exact Or.inl h
+            · exact Or.inr (Or.inr (Or.inl ⟨none, h⟩))) ho
     | update tg pers force =>
+      have ho := hin tg rfl
       cases batch with
-      | some t => exact good_txnUpdate w t _ pers force
-      | none => exact (good_txnUpdate w _ _ pers force).trans (good_txnExit _ _)
+      | some t =>
+        exact step_direct_some w t (tg.resolve w) (fun w t => w.txnUpdate t (tg.resolve w) pers force) (keeps_txnUpdate w t _ pers force) ((good_txnUpdate w t _ pers force).2 hI)
+          (by
+            rcases txnUpdate_txn w t (tg.resolve w) pers force with h | h
+            · exact Or.inl h
+            · exact Or.inr (Or.inr (Or.inr (Or.inl ⟨none, h⟩)))) (hB t rfl) ho
+      | none =>
+        exact step_direct_none w mid _ (tg.resolve w) (fun w t => w.txnUpdate t (tg.resolve w) pers force) (keeps_txnUpdate w _ _ pers force) ((good_txnUpdate w _ _ pers force).2 hI)
+          (by
+            rcases txnUpdate_txn w { market := mid, client := _ } (tg.resolve w) pers force with h | h
+            · exact Or.inl h
+            · exact Or.inr (Or.inr (Or.inr (Or.inl ⟨none, h⟩)))) ho
     | replace tg price v force =>
+      have ho := hin tg rfl
       cases batch with
-      | some t => exact good_txnReplace w t _ price v force
-      | none => exact (good_txnReplace w _ _ price v force).trans (good_txnExit _ _)
-    | batchBegin c => exact Good.refl w
+      | some t =>
+        exact step_direct_some w t (tg.resolve w) (fun w t => w.txnReplace t (tg.resolve w) price v force) (keeps_txnReplace w t _ price v force) ((good_txnReplace w t _ price v force).2 hI)
+          (by
+            rcases txnReplace_txn w t (tg.resolve w) price v force with h | h
+            · exact Or.inl h
+            · exact Or.inr (Or.inr (Or.inr (Or.inr ⟨v, h⟩)))) (hB t rfl) ho
+      | none =>
+        exact step_direct_none w mid _ (tg.resolve w) (fun w t => w.txnReplace t (tg.resolve w) price v force) (keeps_txnReplace w _ _ price v force) ((good_txnReplace w _ _ price v force).2 hI)
+          (by
+            rcases txnReplace_txn w { market := mid, client := _ } (tg.resolve w) price v force with h | h
+            · exact Or.inl h
+            · exact Or.inr (Or.inr (Or.inr (Or.inr ⟨v, h⟩)))) ho
+    | batchBegin c => exact ⟨hI, fun t ht => by rw [← Option.some.inj ht]; exact TOk.fresh w mid c⟩
     | batchExecute =>
       cases batch with
-      | some t => exact good_txnExecute w t
-      | none => exact Good.refl w
+      | some t =>
+        exact ⟨(good_txnExecute w t (fun _ => hB t rfl)).2 hI, fun t' ht' => by rw [← Option.some.inj ht']; exact tok_txnExecute w t⟩
+      | none => exact ⟨hI, hB⟩
     | batchEnd =>
       cases batch with
-      | some t => exact good_txnExit w t
-      | none => exact Good.refl w
+      | some t => exact ⟨(good_txnExit w t (fun _ => hB t rfl)).2 hI, fun t h => by cases h⟩
+      | none => exact ⟨hI, hB⟩
 
-theorem good_doActions (w : World) (mid : Nat) (as : List Action) : Good w (w.doActions mid as).1 := by
+theorem inv_doActions (w : World) (mid : Nat) (as : List Action) (hI : Inv w) : Inv (w.doActions mid as).1 := by
   unfold doActions
   simp only
-  have h : ∀ (l : List Action) (acc : World × Option Txn × List String),
-      Good acc.1 (l.foldl (fun (acc : World × Option Txn × List String) a =>
-        ((acc.1.doAction mid acc.2.1 a).1, (acc.1.doAction mid acc.2.1 a).2.1, acc.2.2 ++ [(acc.1.doAction mid acc.2.1 a).2.2])) acc).1 := by
+  have h : ∀ (l : List Action) (acc : World × Option Txn × List String), Inv acc.1 → BOk acc.1 acc.2.1 →
+      Inv (l.foldl (fun (acc : World × Option Txn × List String) a =>
+        ((acc.1.doAction mid acc.2.1 a).1, (acc.1.doAction mid acc.2.1 a).2.1, acc.2.2 ++ [(acc.1.doAction mid acc.2.1 a).2.2])) acc).1 ∧
+      BOk (l.foldl (fun (acc : World × Option Txn × List String) a =>
+        ((acc.1.doAction mid acc.2.1 a).1, (acc.1.doAction mid acc.2.1 a).2.1, acc.2.2 ++ [(acc.1.doAction mid acc.2.1 a).2.2])) acc).1
+        (l.foldl (fun (acc : World × Option Txn × List String) a =>
+        ((acc.1.doAction mid acc.2.1 a).1, (acc.1.doAction mid acc.2.1 a).2.1, acc.2.2 ++ [(acc.1.doAction mid acc.2.1 a).2.2])) acc).2.1 := by
     intro l
     induction l with
-    | nil => intro acc; exact Good.refl _
-    | cons a as ih => intro acc; rw [List.foldl_cons]; exact (good_doAction acc.1 mid acc.2.1 a).trans (ih _)
-  have := h as (w, none, [])
+    | nil => intro acc h1 h2; exact ⟨h1, h2⟩
+    | cons a as ih =>
+      intro acc h1 h2
+      rw [List.foldl_cons]
+      obtain ⟨g1, g2⟩ := step_doAction acc.1 mid acc.2.1 a h1 h2
+      exact ih _ g1 g2
+  have := h as (w, none, []) hI (fun t ht => by cases ht)
   generalize as.foldl _ (w, none, []) = r at this
   obtain ⟨w1, b, outs⟩ := r
   cases b with
-  | some t => exact this.trans (good_txnExit _ _)
-  | none => exact this
+  | some t => exact (good_txnExit w1 t (fun _ => this.2 t rfl)).2 this.1
+  | none => exact this.1
 
-/-- a market seen for the first time, with an empty blotter -/
+theorem good_doActions (w : World) (mid : Nat) (as : List Action) : Good w (w.doActions mid as).1 :=
+  ⟨keeps_doActions w mid as, inv_doActions w mid as⟩
+
 theorem good_appendMarket (w : World) (m : Market) (hnew : (w.market? m.id).isNone = true) (hb : m.blotter = []) (hl : m.live = []) :
     Good w ({ w with markets := w.markets ++ [m] } : World) := by
-  refine ⟨Keeps.of_eq rfl, fun h => ⟨h.range, ?_, ?_, ?_, ?_⟩⟩
+  refine ⟨Keeps.of_eq rfl, fun h => ⟨h.range, ?_, ?_, ?_, ?_, h.queue⟩⟩
   · intro m' hm' oid ho
     rcases List.mem_append.mp hm' with hm' | hm'
     · exact h.blot m' hm' oid ho
@@ -770,7 +1025,7 @@ theorem good_processMarketBook (w : World) (mid : Nat) (book : Book) (script : N
     Good w (w.processMarketBook mid book script).1 := by
   unfold processMarketBook
   simp only
-  have k0 : Good w (w.setClock book.pt) := Good.of_eq rfl rfl
+  have k0 : Good w (w.setClock book.pt) := Good.of_eq rfl rfl (fun _ hp => hp)
   generalize w.setClock book.pt = w0 at k0
   have k1 : Good w (if w0.queue.isEmpty = true then w0 else w0.checkPendingPackages mid) := by
     split
